@@ -1,4 +1,5 @@
 import ElkVerif.Proofs.Num
+import ElkVerif.Proofs.Val
 /-!
 # C18 — Equality, hashing and ordering are mutually consistent
 
@@ -196,6 +197,37 @@ literal 9223372036854775808 produces, C06) is `==` to the SmallInt and hashes di
 theorem eq_hash_unnormalised_witness :
     wfLoose (.bi (-(2 ^ 63))) = true ∧ eqVal (.bi (-(2 ^ 63))) (.si (-(2 ^ 63))) = true ∧
     hashBytes (.bi (-(2 ^ 63))) ≠ hashBytes (.si (-(2 ^ 63))) := by decide
+
+/-! ## strings, chars, symbols, nil, bools, dates, lists, tuples, pairs, ranges
+
+`Val` is the structural model of `vm.Equal`/`vm.Hash` on all built-in values. `positional`: no hash map/record/set
+inside (their `==` is a lookup, C17's domain — tied by correspondence only). -/
+
+open Elk.Val in
+/-- `==` is symmetric on all values built from atoms, lists, tuples, pairs, ranges, dates (structural induction) -/
+theorem val_eq_symm (a b : Val) (h : a.positional = true) : Val.eqv a b = Val.eqv b a := Val.eqv_symm a b h
+
+open Elk.Val in
+/-- `==` is reflexive on such values when no NaN occurs inside -/
+theorem val_eq_refl (a : Val) (hp : a.positional = true) (hn : a.nanFree = true) : Val.eqv a a = true :=
+  Val.eqv_refl a hp hn
+
+open Elk.Val in
+/-- `a == b` implies equal hashes for every non-compound value (numbers, strings, chars, symbols, nil, bools, dates) -/
+theorem val_eq_hash_partial (a b : Val) (ha : a.wfAtom = true) (hb : b.wfAtom = true) (h : Val.eqv a b = true) :
+    a.hashKey = b.hashKey := Val.hash_of_eqv_atom a b ha hb h
+
+open Elk.Val in
+/-- the full statement fails today for compound values (known finding C18-collections-hash-by-identity):
+two empty lists are `==` and are hashed by their addresses -/
+theorem val_eq_hash_collection_witness :
+    Val.eqv (Val.list []) (Val.list []) = true ∧ Val.hashEq false (Val.list []) (Val.list []) = false := by
+  simp [Val.list, Items.ofList, Val.eqv, Items.eqv, Val.hashEq, Val.hashKey]
+
+/-- the full-strength statement, not provable of today's code -/
+def ValEqHashFull : Prop :=
+  ∀ (a b : Elk.Val.Val) (distinctObjects : Bool), Elk.Val.Val.eqv a b = true →
+    Elk.Val.Val.hashEq (!distinctObjects) a b = true
 
 /-! ## non-vacuity -/
 
